@@ -170,8 +170,9 @@ def build_storages(ctx, hid, seed, ncorrupt):
             d = os.path.join(w.base, 'snap-run%d' % k)
             shutil.copytree(w.root, d, symlinks=True)
             out.append({'label': 'after-run', 'history': hid, 'run': k, 'rc': r.rc, 'root': d})
-        for c in range(ncorrupt):
-            kind = rng.choice(CORRUPTIONS)
+        plan = list(CORRUPTIONS) if hid < 3 else []          # every kind on the first storages, then a random sample
+        for c in range(ncorrupt + len(plan)):
+            kind = plan[c] if c < len(plan) else rng.choice(CORRUPTIONS)
             d = os.path.join(w.base, 'corrupt-%d' % c)
             shutil.copytree(w.root, d, symlinks=True)
             if corrupt(rng, d, kind):
